@@ -160,7 +160,7 @@ type Ctx struct {
 	expensive int
 
 	curUnit  atomic.Int64
-	curStart atomic.Int64 // unix nanos; 0 = idle
+	curStart atomic.Int64 // process CPU time (ns) when the unit started, +1; 0 = idle
 	curDesc  atomic.Value
 	limit    time.Duration
 	progress *os.File
@@ -226,7 +226,7 @@ func (c *Ctx) Unit(desc func() string) bool {
 	d := desc()
 	c.curDesc.Store(d)
 	c.curUnit.Store(idx)
-	c.curStart.Store(time.Now().UnixNano())
+	c.curStart.Store(cpuNanos() + 1)
 	if c.progress != nil {
 		rec := fmt.Sprintf("%d\t%s", idx, d)
 		if len(rec) > 4000 {
@@ -339,6 +339,17 @@ func addViol(m map[string]*Viol, class, desc string, replay map[string]any) {
 	m[class] = &Viol{Class: class, Desc: desc, Replay: replay, Count: 1}
 }
 
+// cpuNanos: CPU time (user+system) consumed by this process. The watchdog measures a
+// unit in CPU time, not wall time: a frozen or starved process (sandbox snapshot, overload)
+// makes no progress on either clock, while a spinning one burns CPU.
+func cpuNanos() int64 {
+	var ru syscall.Rusage
+	if syscall.Getrusage(syscall.RUSAGE_SELF, &ru) != nil {
+		return time.Now().UnixNano()
+	}
+	return ru.Utime.Nano() + ru.Stime.Nano()
+}
+
 // ---------------------------------------------------------------- worker main
 
 func workerMain(args []string) {
@@ -417,8 +428,8 @@ func workerMain(args []string) {
 				continue
 			}
 			why := ""
-			if time.Since(time.Unix(0, st)) > c.limit {
-				why = fmt.Sprintf("no progress for %v", c.limit)
+			if time.Duration(cpuNanos()-st) > c.limit {
+				why = fmt.Sprintf("no progress for %v of CPU time", c.limit)
 			} else if tick%4 == 0 {
 				runtime.ReadMemStats(&ms)
 				if ms.HeapAlloc > 2<<30 {
@@ -579,6 +590,7 @@ func checkMain(args []string) {
 					hangs = append(hangs, hang{bad, desc, why})
 					if len(hangs) >= 3 {
 						stopAll.Store(true)
+						go killWorkers()
 					}
 				} else {
 					total.Notes = append(total.Notes, fmt.Sprintf("unit %d (%s) exceeded its limit under load but completed solo; not a violation", bad, desc))
@@ -759,6 +771,19 @@ var harnessErr atomic.Value // first unrecovered Go panic of a worker (= bug in 
 
 var workerBin = ""
 
+var liveMu sync.Mutex
+var live = map[*exec.Cmd]bool{}
+
+func killWorkers() {
+	liveMu.Lock()
+	defer liveMu.Unlock()
+	for c := range live {
+		if c.Process != nil {
+			c.Process.Kill()
+		}
+	}
+}
+
 func runWorker(wargs []string, tmp string, onDelta func(*Agg), s *shardState) (int64, *hangRec, bool) {
 	pr, pw, _ := os.Pipe()
 	bin := os.Args[0]
@@ -768,14 +793,25 @@ func runWorker(wargs []string, tmp string, onDelta func(*Agg), s *shardState) (i
 	cmd := exec.Command(bin, wargs...)
 	cmd.Env = append(os.Environ(), "GOMAXPROCS=2", "GOTRACEBACK=single")
 	cmd.ExtraFiles = []*os.File{pw}
+	cmd.SysProcAttr = &syscall.SysProcAttr{Pdeathsig: syscall.SIGKILL}
 	cmd.Stdout = nil
 	errf, _ := os.CreateTemp(tmp, "stderr-")
 	cmd.Stderr = errf
 	cmd.Dir = tmp
+	runtime.LockOSThread() // Pdeathsig is bound to the starting thread: keep it alive while the child runs
+	defer runtime.UnlockOSThread()
 	if err := cmd.Start(); err != nil {
 		fmt.Fprintln(os.Stderr, "cannot start worker:", err)
 		return -1, nil, false
 	}
+	liveMu.Lock()
+	live[cmd] = true
+	liveMu.Unlock()
+	defer func() {
+		liveMu.Lock()
+		delete(live, cmd)
+		liveMu.Unlock()
+	}()
 	pw.Close()
 	lastUpto := int64(-1)
 	var hg *hangRec
